@@ -27,6 +27,7 @@ type c15Op struct {
 }
 
 type c15Spec struct {
+	partial int // the store's first reads deliver half and a transient error (those reads may fail; the rest must still be linearizable)
 	server  string
 	alloc   bool
 	handles int
@@ -51,6 +52,7 @@ func c15Scenario(s c15Spec) explore.Scenario {
 				h = newVHandler(false) // atomic backing-store operations (the property's precondition)
 				f := h.file("/f", true)
 				f.data = []byte(c15Init)
+				f.PartialReads = s.partial
 				var opts []RequestServerOption
 				if s.alloc {
 					opts = append(opts, WithRSAllocator())
@@ -89,7 +91,11 @@ func c15Scenario(s c15Spec) explore.Scenario {
 				if s.server == "os" {
 					name = "f"
 				}
-				f, err := c.OpenFile(name, os.O_RDWR)
+				flags := os.O_RDWR
+				if s.partial > 0 && i == 0 && s.handles > 1 {
+					flags = os.O_RDONLY // served through the request server's read-only path
+				}
+				f, err := c.OpenFile(name, flags)
 				if err != nil {
 					bad = append(bad, "OpenFile: "+err.Error())
 					c.Close()
@@ -109,6 +115,9 @@ func c15Scenario(s c15Spec) explore.Scenario {
 						case "read":
 							b := make([]byte, 2)
 							n, err := f.ReadAt(b, int64(o.off))
+							if err != nil && s.partial > 0 {
+								continue // the store failed this read: it returns an error and is not part of the history
+							}
 							if err != nil {
 								bad = append(bad, fmt.Sprintf("ReadAt(%d): %v", o.off, err))
 							}
@@ -194,6 +203,12 @@ func c15Specs(set, server string, alloc bool) []c15Spec {
 			mk(1, []c15Op{w(0, "ab", 0)}, []c15Op{w(1, "cd", 0)}, []c15Op{r(0, 0)}),
 			mk(2, []c15Op{w(1, "cd", 0)}, []c15Op{r(1, 1)}, []c15Op{sz(0)}),
 		}
+	case "partial": // a read-only handle (fileget) and a read-write one (fileputget); the first store read is partial
+		a := mk(2, []c15Op{r(0, 0), r(1, 0)}, []c15Op{w(0, "ab", 1), w(1, "cd", 1)})
+		a.partial = 1
+		b := mk(1, []c15Op{r(0, 0)}, []c15Op{w(0, "ab", 0)}, []c15Op{w(1, "cd", 0)})
+		b.partial = 1
+		return []c15Spec{a, b}
 	case "2x1":
 		return []c15Spec{
 			mk(1, []c15Op{w(0, "ab", 0)}, []c15Op{r(0, 0)}),
@@ -265,12 +280,14 @@ func init() {
 					j("rs W=2 3x1 db3 alloc", "instr-w2", "rs", "3x1", 3, 900, true),
 					j("rs W=8 2x2 db2", "instr", "rs", "2x2", 2, 600, false),
 					j("os W=2 2x2 db3 alloc", "instr-w2", "os", "2x2", 3, 900, true),
+					j("rs W=2 store read fails part-way db3", "instr-w2", "rs", "partial", 3, 600, false),
 				}
 			}
 			return []reg.Job{
 				j("rs W=2 2x2 db2", "instr-w2", "rs", "2x2", 2, 100, false),
 				j("rs W=2 3x1 db2 alloc", "instr-w2", "rs", "3x1", 2, 100, true),
 				j("os W=2 2x1 db2 alloc", "instr-w2", "os", "2x1", 2, 60, true),
+				j("rs W=2 store read fails part-way db2", "instr-w2", "rs", "partial", 2, 100, false),
 			}
 		},
 	})
